@@ -5,7 +5,7 @@ from typing import List, Optional, Tuple
 
 from .. import terms as tm
 from ..interp import Interp, Result
-from ..lib import comparisons, fmt, index_position, index_source, \
+from ..lib import opaque, comparisons, fmt, index_position, index_source, \
     is_call_to, norm_cmp, per_element, sweep
 from ..terms import T, const
 from .c11 import _conj, _ite_chain
@@ -783,7 +783,7 @@ def _by_angle(ctx, prog):
                    f"[degrees={deg}] angle/consecutive: the increments are "
                    f"not the relative rotation angles of consecutive poses "
                    f"(pose i with pose i+1)",
-                   key="C10.4:angle:step")
+                   key="C10.4:angle:step", evidence=not opaque(inc))
 
         # ---------------- all pairs
         r = Interp(prog).run(f, {"all_pairs": const(True),
@@ -1112,7 +1112,10 @@ def _dispatch(ctx, prog):
                f"delta unit {member} -> {want_fn.rsplit('.', 1)[1]}" if ok
                else f"delta unit {member} dispatches to "
                     f"{[c.data['target'].qualname for c in calls]}",
-               key=f"C10.6:{member}:callee")
+               key=f"C10.6:{member}:callee",
+               # (no call of a filter read at all — the filter is taken
+               # from a table: no evidence)
+               evidence=bool(calls))
         if not ok:
             continue
         b = calls[0].data["bound"]
